@@ -106,14 +106,38 @@ def check_packet(h, ref_content, owner, decode, parms=PARMS):
     if reply.send_bytes != wire.frame(parms[2], parms[3], b"X"):
         raise Bad(("reply-address", f"reply to src={parms[3][:20]!r} dst={parms[2][:20]!r} is {reply.send_bytes[:80]!r}"))
     if decode is not None:
-        fresh = _mk(FAMILIES[owner][0])
-        try:
-            fresh.handle(ref_content, ph.parms)
-        except Exception as e:  # noqa
-            raise Bad(("decode-raised", f"peer handle() raised {e!r} on {ref_content[:40]!r}"))
-        why = decode(fresh)
-        if why:
-            raise Bad(("decode", why))
+        for cls in FAMILIES[owner]:
+            peer = _mk(cls)
+            # handlers are long-lived: the same instance decodes datagram after datagram, so decode twice - once after
+            # a different message of the family - and both results must be the fields of the message just handled
+            for rnd in range(2):
+                try:
+                    if cls is D.GeckoAsyncPartialStatusBlockProtocolHandler:
+                        if rnd == 0:
+                            _drive(peer.async_handle(wire.statp([(9, b"\x09\x09")]), ph.parms))
+                        _drive(peer.async_handle(ref_content, ph.parms))
+                    else:
+                        if rnd == 0 and cls is D.GeckoPartialStatusBlockProtocolHandler and ref_content.startswith(b"STATP"):
+                            peer.handle(wire.statp([(9, b"\x09\x09")]), ph.parms)
+                            peer.changes.clear()  # the blocking client clears the list after applying it
+                        peer.handle(ref_content, ph.parms)
+                except Exception as e:  # noqa
+                    raise Bad(("decode-raised", f"peer {cls.__name__} raised {e!r} on {ref_content[:40]!r}"))
+                why = decode(peer)
+                if why:
+                    raise Bad(("decode", f"{cls.__name__} (decode #{rnd + 1} on the same handler): {why}"))
+                if cls is D.GeckoPartialStatusBlockProtocolHandler and ref_content.startswith(b"STATP"):
+                    peer.changes.clear()
+                if peer.should_remove_handler:
+                    break  # a one-shot reply handler: it retires after this message, a second decode is not its contract
+
+
+def _drive(coro):
+    try:
+        coro.send(None)
+    except StopIteration:
+        return
+    raise core.HarnessError("async_handle suspended")
 
 
 def eq(h, **kw):
